@@ -104,6 +104,7 @@ def run_paths(res, tmp, depth, idx, n):
             if k % n != idx:
                 continue
             for entry in ('output_to_relative_path', 'copy_to_path_joined', 'copy_to_path_cwd', 'swift_writer'):
+                real_result = None
                 for manifest in (False, True):
                     before = fsaudit.snapshot(case)
                     man = OutputManifest() if manifest else None
@@ -157,6 +158,23 @@ def run_paths(res, tmp, depth, idx, n):
                     if manifest and file_changes:
                         res.violation({'kind': 'manifest_run_created_file', 'entry': entry},
                                       {'path': rel, 'changes': file_changes[:4]}, replay)
+                    created = sorted(os.path.relpath(c[0], 'out') for c in changes
+                                     if c[1] != 'created_dir' and (c[0] == 'out' or c[0].startswith('out/')))
+                    if not manifest:
+                        real_result = (outcome, created)
+                    elif real_result is not None:
+                        # a manifest run reports exactly the files the real run creates
+                        listed_now = sorted(man.outputs()) if outcome == 'done' else []
+                        r_outcome, r_created = real_result
+                        if r_outcome == 'done' and outcome == 'done' and listed_now != r_created:
+                            res.violation({'kind': 'manifest_differs_from_real_run', 'entry': entry},
+                                          {'path': rel, 'listed': listed_now, 'created': r_created}, replay)
+                        elif r_outcome != 'done' and listed_now:
+                            res.violation({'kind': 'manifest_reports_files_but_real_run_fails', 'entry': entry,
+                                           'real': r_outcome},
+                                          {'path': rel, 'listed': listed_now}, replay)
+                        else:
+                            res.count('manifest_vs_real_path_requests')
                     if manifest and outcome == 'done':
                         listed = man.outputs()
                         if any(x.startswith('..') or os.path.isabs(x) for x in listed):
